@@ -200,9 +200,9 @@ PROPS["C17"] = {
     "jobs": [],
     "extra_phases": [_phase_wrappers],
     "rule": "one evaluation = one C program (host side: seeded sequence of wrapper calls, consuming calls, clones and drop helpers on objects sharing reference-counted contexts; plugin side: mock vtable entries that log slot, container and arguments and release what a consuming entry owns) compiled against the header the real cglue-bindgen produced for one seeded header model, configuration and process hash seed; distinct = distinct processed header x plan; non-trivial = the program ran and at least one vtable entry was invoked through a wrapper",
-    "real": ["cglue-bindgen binary built from /repo (types.rs wrapper generator and argument parser, codegen/c.rs discovery and naming)", "the generated C wrappers, drop helpers and context clone/drop helpers, compiled by cc -std=c99 and executed"],
+    "real": ["cglue-bindgen binary built from /repo (types.rs wrapper generator and argument parser, codegen/c.rs and codegen/cpp.rs discovery, naming and text insertion)", "the generated C wrappers, drop helpers and context clone/drop helpers, compiled by cc -std=c99 and executed", "the generated C++ member functions, destructors, container specialisations, CBox/CArc members, compiled by c++ -std=c++11 and executed"],
     "stub": ["cbindgen (fake executable on PATH printing the run's header)", "getrandom (shim: hash seed = f(SIMRAND_SEED))", "input headers (hdrgen: model of cbindgen's output shape)", "vtable entries, CBox and CArc contents (C mocks that log and count)"],
-    "assumptions": COMMON_ASSUMPTIONS + ["hdrgen is a model of an external tool (see C18)", "C mode only: the C++ member-function wrappers (codegen/cpp.rs) are not exercised, no model of cbindgen's C++ output exists here",
+    "assumptions": COMMON_ASSUMPTIONS + ["hdrgen is a model of an external tool (see C18)", "the C++ header model is narrower than the C one: reference-counted context only (a user context has no clone()/drop() members, the no-context spelling of cbindgen's C++ output is unknown here), groups only over traits without real temporaries, no configuration that makes NoContext the default context",
                                           "wrapper names are computed from the naming rules documented in codegen/c.rs; a change of those rules is reported as a missing wrapper",
                                           "the wrapper of a container-returning entry (clone) rebuilds the container only; the C caller copies the vtable pointers"],
 }
